@@ -283,9 +283,79 @@ func checkIfNode(w *World, r *Report) {
 	evalM := w.method("RenderContext", "EvaluateExpression")
 	toBool := w.method("RenderContext", "toBool")
 	name := ssaName(fn)
+	// a helper that is handed one condition of the chain, evaluates it and answers with its
+	// truth value: (bool, …) where the bool is toBool(…) — or false beside an error — on every return
+	condHelper := func(c *ssa.Call) (int, bool) {
+		g := c.Call.StaticCallee()
+		if g == nil || !isTwigFn(g) || len(g.Blocks) == 0 || calleeFunc(c) == evalM {
+			return 0, false
+		}
+		takesCond := false
+		for _, a := range c.Call.Args {
+			if _, f := originField(a, 0); f == "conditions" {
+				takesCond = true
+			}
+		}
+		if !takesCond {
+			return 0, false
+		}
+		res := g.Signature.Results()
+		for i := 0; i < res.Len(); i++ {
+			if b, ok := res.At(i).Type().Underlying().(*types.Basic); !ok || b.Kind() != types.Bool {
+				continue
+			}
+			all, nret := true, 0
+			instrsOf(g, func(in ssa.Instruction) {
+				ret, ok := in.(*ssa.Return)
+				if !ok {
+					return
+				}
+				nret++
+				rv := unspill(retResults(ret)[i])
+				var okv func(v ssa.Value, d int) bool
+				okv = func(v ssa.Value, d int) bool {
+					v = unspill(v)
+					if d > 4 {
+						return false
+					}
+					if isConstBool(v, false) {
+						return true
+					}
+					if tc, ok := v.(*ssa.Call); ok && calleeFunc(tc) == toBool {
+						return true
+					}
+					if ph, ok := v.(*ssa.Phi); ok {
+						for _, e := range ph.Edges {
+							if !okv(e, d+1) {
+								return false
+							}
+						}
+						return true
+					}
+					return false
+				}
+				if !okv(rv, 0) {
+					all = false
+				}
+			})
+			if all && nret > 0 {
+				return i, true
+			}
+		}
+		return 0, false
+	}
 	isToBool := func(v ssa.Value) bool {
-		c, ok := v.(*ssa.Call)
-		return ok && calleeFunc(c) == toBool
+		if c, ok := v.(*ssa.Call); ok && calleeFunc(c) == toBool {
+			return true
+		}
+		if ex, ok := v.(*ssa.Extract); ok {
+			if c, ok := ex.Tuple.(*ssa.Call); ok {
+				if i, ok := condHelper(c); ok && i == ex.Index {
+					return true
+				}
+			}
+		}
+		return false
 	}
 	type st struct {
 		b    *ssa.BasicBlock
@@ -303,6 +373,13 @@ func checkIfNode(w *World, r *Report) {
 		for _, in := range s.b.Instrs {
 			if c, ok := in.(*ssa.Call); ok && calleeFunc(c) == evalM {
 				if _, f := originField(callArgs(c)[0], 0); f == "conditions" {
+					nCond++
+					if s.took && vCondAfter == "" {
+						vCondAfter = w.posOf(in.Pos())
+					}
+				}
+			} else if c, ok := in.(*ssa.Call); ok {
+				if _, isHelper := condHelper(c); isHelper {
 					nCond++
 					if s.took && vCondAfter == "" {
 						vCondAfter = w.posOf(in.Pos())
